@@ -1,6 +1,6 @@
-"""C02 — see props/router_run.py"""
-from props import router_run
+"""C02 — see props/router_run.py (conflicts, ambiguity, reachability) and props/c02reg.py (registration-time validation)"""
+from props import router_run, c02reg
 
 
 def run(tier, replay_file=None):
-    return router_run.run('C02', tier, replay_file)
+    return router_run.run('C02', tier, replay_file, before_finish=c02reg.part_registration)
